@@ -3,7 +3,7 @@ pub mod c02;
 pub mod c03;
 pub mod c04;
 pub mod c05;
-#[cfg(feature = "compress")]
+#[cfg(feature = "decodes")]
 pub mod c06;
 pub mod c07;
 #[cfg(any(feature = "native", feature = "rustls"))]
@@ -29,7 +29,7 @@ use crate::framework::Property;
 pub fn all() -> Vec<Property> {
     #[allow(unused_mut)]
     let mut v = vec![c01::property(), c02::property(), c03::property(), c04::property(), c05::property(), c07::property(), c09::property(), c11::property(), c15::property(), c16::property(), c17::property(), c18::property(), c19::property()];
-    #[cfg(feature = "compress")]
+    #[cfg(feature = "decodes")]
     v.push(c06::property());
     // these need a TLS server (openssl) in the harness: absent from the TLS-less flavour used under Miri
     #[cfg(any(feature = "native", feature = "rustls"))]
